@@ -415,3 +415,34 @@ def rule_skip_zeros_unit(col, facts):
     # the loop counts every zero it consumes
     calls = [last_seg(callee_name(c)) for _b, c, _a, _d, _t in f.calls()]
     col.check(R, "skip_zeros:increments", "increment_count" in calls, "skip_zeros consumes zeros without increment_count()", f.loc())
+
+
+def rule_take_n_twins(col, facts):
+    """SIB-twin (take_n): the skip and no-skip iterators both hand the integer parser a window
+    `Bytes::from_parts(&slc[..end], self.cursor())` - a prefix of the *whole* buffer with the absolute cursor -
+    so that every index and count the parser reports stays relative to the input.  All implementations must
+    build the window the same way; a window re-based at the cursor (`&slc[cursor..end]`, index 0) makes the
+    partial parser report a length that is short by the bytes before the window (the sign)."""
+    from rules.c15 import _norm
+    R = "SIB-twin"
+    shapes = {}
+    for f in facts.all_fns():
+        if f.crate != "lexical_util" or not f.short.endswith("::take_n"):
+            continue
+        for bb, c, a, d, t in f.calls():
+            if last_seg(callee_name(c)) != "from_parts":
+                continue
+            a0, a1 = strip_casts(op_expr(f, a[0])), strip_casts(op_expr(f, a[1]))
+            rng = [x for x in expr_calls(a0) if last_seg(x[1]) in ("index", "index_mut")]
+            kind = "?"
+            for r in rng:
+                ag = strip_casts(r[2][1])
+                if ag[0] == "agg" and isinstance(ag[1], tuple):
+                    kind = last_seg(ag[1][1]) if len(ag[1]) > 1 else "?"
+            idx = "cursor()" if (a1[0] == "call" and last_seg(a1[1]) == "cursor") else show(a1)
+            key = f.short.split("::take_n")[0].split("::")[-1].split("<")[0]
+            shapes[key] = (kind, idx, f.loc(f.blocks[bb]["ts"]))
+    col.check(R, "take_n:implementations", len(shapes) >= 1, "no take_n implementation with a from_parts window found", "lexical-util/src/noskip.rs")
+    for key, (kind, idx, loc) in sorted(shapes.items()):
+        col.check(R, "take_n:%s" % key, kind == "RangeTo" and idx == "cursor()",
+                  "the window is `from_parts(&slc[%s], %s)`; its siblings (and every index the parsers report) need a prefix of the whole buffer with the absolute cursor: `from_parts(&slc[..end], self.cursor())`" % ("..end" if kind == "RangeTo" else kind, idx), loc)
